@@ -238,7 +238,8 @@ def run_e2e(ctx):
     cases = cases + overlay_cases("bound", "c05")
     from vlib.overlay import sibling_group_cases
     from vlib.valuecheck import expect_cases
-    sg = sibling_group_cases("bound", "c05") + both_blocks_cases()
+    from vlib.lookalike import lookalike_cases
+    sg = sibling_group_cases("bound", "c05") + both_blocks_cases() + lookalike_cases("c05", "bound")
     run_cases(ctx, cases + sg, "c05e")
     expect_cases(ctx, sg, "numeric bounds")
     evaluate(ctx, cases, classes, {"bound": "invalid", "number-valid": "valid", "optional-absent": "by-spec", "null-allowed": "valid", "valid": "valid"},
